@@ -10,8 +10,9 @@ from typing import Any, Iterable, Optional
 
 VERIF = os.path.dirname(os.path.dirname(os.path.dirname(os.path.abspath(__file__))))
 REPO = os.environ.get('VERIF_REPO', '/repo')
-EVIDENCE_DIR = os.path.join(VERIF, 'evidence')
-REPLAY_DIR = os.path.join(VERIF, 'replays')
+# (the two overrides exist for trying the checks on scratch trees without touching the committed evidence)
+EVIDENCE_DIR = os.environ.get('VERIF_EVIDENCE_DIR') or os.path.join(VERIF, 'evidence')
+REPLAY_DIR = os.environ.get('VERIF_REPLAY_DIR') or os.path.join(VERIF, 'replays')
 FINDINGS_FILE = os.path.join(VERIF, 'known_findings.jsonl')
 GUARD = 'AUTOBEAN_VERIF_TRACE'
 
@@ -152,3 +153,84 @@ class Reporter:
 def chunked(xs: list, n: int) -> Iterable[list]:
     for i in range(0, len(xs), n):
         yield xs[i:i + n]
+
+
+class Runaway(BaseException):
+    """An implementation call that normally takes milliseconds did not return within the guard time.
+    A BaseException: `except Exception` handlers (the harness's crash handlers, the implementation's own) do not
+    swallow it, it unwinds to the worker's job wrapper (Guarded), which turns it into a verdict."""
+
+    def __init__(self, msg: str, where: str = '?', stack: Optional[list] = None) -> None:
+        super().__init__(msg)
+        self.where = where
+        self.stack = stack or []
+
+
+import contextlib  # noqa: E402
+import signal  # noqa: E402
+import threading  # noqa: E402
+import traceback  # noqa: E402
+
+GUARD_SECONDS = float(os.environ.get('VERIF_CALL_GUARD', '60'))        # one call into the implementation
+JOB_SECONDS = float(os.environ.get('VERIF_JOB_GUARD', '1800'))         # one pool job (normally seconds to a minute)
+
+
+@contextlib.contextmanager
+def guard(seconds: Optional[float] = None):
+    """Bound a piece of work that calls into the implementation.  A change to the code under test can make a
+    call loop forever (and eat memory); the check must then end with a verdict instead of hanging.  Only the main
+    thread of a process can take the alarm; elsewhere the work runs unguarded.  Nested guards restore the outer
+    deadline on exit."""
+    seconds = GUARD_SECONDS if seconds is None else seconds
+    if threading.current_thread() is not threading.main_thread():
+        yield
+        return
+
+    def on_alarm(signum, frame):  # noqa: ANN001
+        st = traceback.extract_stack(frame)
+        inrepo = [f for f in st if os.path.abspath(f.filename).startswith(os.path.abspath(REPO) + os.sep)]
+        where = f'{os.path.relpath(inrepo[-1].filename, REPO)}:{inrepo[-1].name}' if inrepo else 'harness'
+        raise Runaway(f'did not return within {seconds:g} s', where,
+                      [f'{f.filename}:{f.lineno} {f.name}' for f in st[-14:]])
+
+    old_handler = signal.signal(signal.SIGALRM, on_alarm)
+    old_left, _ = signal.setitimer(signal.ITIMER_REAL, seconds)
+    t0 = time.time()
+    try:
+        yield
+    finally:
+        signal.setitimer(signal.ITIMER_REAL, 0)
+        signal.signal(signal.SIGALRM, old_handler)
+        if old_left:
+            signal.setitimer(signal.ITIMER_REAL, max(0.01, old_left - (time.time() - t0)))
+
+
+class Guarded:
+    """Picklable wrapper of a pool job function: ('ok', result) or ('runaway', info)."""
+
+    def __init__(self, fn: Any, seconds: Optional[float] = None) -> None:
+        self.fn = fn
+        self.seconds = seconds
+
+    def __call__(self, arg: Any) -> tuple:
+        t0 = time.time()
+        try:
+            with guard(JOB_SECONDS if self.seconds is None else self.seconds):
+                return 'ok', self.fn(arg), time.time() - t0
+        except Runaway as e:
+            return 'runaway', {'what': f'a call into the implementation {e}; stuck in {e.where}', 'where': e.where,
+                               'stack': e.stack, 'job': repr(arg)[:1500]}, time.time() - t0
+
+
+def gmap(pool: Any, rep: 'Reporter', fn: Any, jobs: Any, seconds: Optional[float] = None) -> Iterable[Any]:
+    """pool.imap_unordered with every job guarded.  A job that does not come back is a verdict (the call that hangs
+    is named), and the remaining jobs are abandoned: the caller's `with Pool` block terminates the workers."""
+    worst = rep.cov.get('slowest_pool_job_s', 0.0)
+    for status, val, dt in pool.imap_unordered(Guarded(fn, seconds), jobs):
+        worst = max(worst, round(dt, 1))
+        rep.cov['slowest_pool_job_s'] = worst
+        if status == 'ok':
+            yield val
+        else:
+            rep.violation(f'{rep.prop}/call-did-not-return/{val["where"]}', val)
+            return
